@@ -8,6 +8,8 @@ CONSTANTS
   ForkKinds = {"plain", "tx", "idupd"}
   ResetDepths = {1, 2, 3}
   ForkLens = {1, 2}
+  FsKinds = {"plain", "idupd"}
+  FsLens = {1, 2}
   PreHeads = {2, 6}
   ExportOn = TRUE
 INIT MInit
